@@ -140,6 +140,11 @@ Ops(S) ==
       {[name |-> "filter", p |-> p, v |-> v] : p \in Parents(S),
           v \in [1..S.n -> {"T", "F", "skip", "skipKeep", "select", "stop"}] \ [1..S.n -> {"T", "F"}]}
     ELSE {})
+   \cup
+   (IF "stale" \in OpNames THEN      \* calls through handles of removed nodes (the handles themselves are not state of
+                                     \* the tree: Compact drops removed nodes; the harness keeps the objects)
+      {[name |-> "stale", what |-> w] : w \in {"add", "move_to_root", "move_into", "remove", "set_data"}}
+    ELSE {})
 
 ----------------------------------------------------------------------------
 (* JSON rendering *)
